@@ -257,9 +257,21 @@ def _blocks_glue(s0: int, s1: int, ntop: int) -> bool:
 
 # ----------------------------------------------------------------------------- two files through the real _read with a fake h5py (C08, C09)
 
+class _Guard:
+    """dataset handle of a fake file: unusable once the file is closed (h5py raises for identifiers of a closed file)"""
+    def __init__(self, f, d): self._f = f; self._ds = d
+    def _chk(self):
+        if self._f.closed: raise OSError('identifier is not of specified type (file closed)')
+    @property
+    def shape(self): self._chk(); return self._ds.shape
+    def __getitem__(self, k): self._chk(); return self._ds[k]
+
+
 class _FakeH5File:
     def __init__(self, rows, n): self._d = {'rf_data': FakeData(n), 'rf_data_index': FakeIndex(rows)}; self.closed = False
-    def __getitem__(self, k): return self._d[k]
+    def __getitem__(self, k):
+        if self.closed: raise OSError('file closed')
+        return _Guard(self, self._d[k])
     def close(self): self.closed = True
     def __enter__(self): return self
     def __exit__(self, *a): self.close()
@@ -279,6 +291,7 @@ def _two_files(r1: List[Tuple[int, int]], n1: int, gap: int, r2: List[Tuple[int,
     class FH5:
         @staticmethod
         def File(path, mode, **kw):
+            if not present[path]: raise OSError('unable to open file (no such file)')
             opened.append(path); rows, n = files[path]; return _FakeH5File(rows, n)
     t = H._top_level_dir_properties.__new__(H._top_level_dir_properties)
     t.top_level_dir = '/w'; t.channel_name = 'ch'; t.access_mode = 'local'; t.rdcc_nbytes = 1
@@ -294,6 +307,36 @@ def _two_files(r1: List[Tuple[int, int]], n1: int, gap: int, r2: List[Tuple[int,
     if have1: exp += [(k, ln) for (k, ln, r0) in _expected(r1, n1, s0, s1)]
     if have2: exp += [(k, ln) for (k, ln, r0) in _expected(r2, n2, s0, s1)]
     return out.items_ == exp and opened == [p for p in ('/w/ch/a', '/w/ch/b') if present[p]]
+
+
+def _cache_sequence(rows: List[Tuple[int, int]], n: int, s0: int, s1: int, probe: int, mid_there: bool) -> bool:
+    """
+    pre: 1 <= len(rows) <= 2
+    pre: _wf(rows, n) and n <= 8
+    pre: 0 <= s0 <= s1 and 0 <= probe <= 2
+    post: _
+    """
+    # a long-lived reader: read file a; then a pass over file names of which a further one may not exist (yet / any more); then file a again:
+    # the third pass returns what the first returned and never fails (no stale cached handle)
+    files = {'/w/ch/a': (rows, n), '/w/ch/b': (rows, n), '/w/ch/c': (rows, n)}
+    present = {'/w/ch/a': True, '/w/ch/b': mid_there, '/w/ch/c': False}
+    class FH5:
+        @staticmethod
+        def File(path, mode, **kw):
+            if not present[path]: raise OSError('unable to open file (no such file)')
+            r_, n_ = files[path]; return _FakeH5File(r_, n_)
+    t = H._top_level_dir_properties.__new__(H._top_level_dir_properties)
+    t.top_level_dir = '/w'; t.channel_name = 'ch'; t.access_mode = 'local'; t.rdcc_nbytes = 1
+    t._cachedFilename = None; t._cachedFile = None
+    old = (H.h5py, H.os.access)
+    H.h5py = FH5; H.os.access = lambda p, m: present[p]
+    try:
+        o1 = Rec(); t._read(s0, s1, ['a'], o1, len_only=False)
+        o2 = Rec(); t._read(s0, s1, (['c'] if probe == 0 else (['b', 'c'] if probe == 1 else ['a', 'b', 'c'])), o2, len_only=False)
+        o3 = Rec(); t._read(s0, s1, ['a'], o3, len_only=False)
+    finally:
+        H.h5py, H.os.access = old
+    return o3.items_ == o1.items_
 
 
 def _split_invariance(rows: List[Tuple[int, int]], n: int, a: int, b: int, c: int) -> bool:
